@@ -755,6 +755,9 @@ def build(chk: Check) -> None:
                             continue
                         formulate(chk, RL, n, p, {"angular_momentum": ell, "phsp_factor": cls, "meson_radius": D_SYM})
 
+    C.phsp_factor_history(chk, RL, FK + "RelativisticKMatrix.formulate")
+    C.phsp_factor_history(chk, RL, FK + "RelativisticKMatrix.formulate", {"return_t_hat": True})
+
     # the statement without the requirement on the pole masses
     width_findings(chk, ells)
     formulate_findings(chk)
